@@ -2573,6 +2573,8 @@ impl Connection {
                     self.spaces[SpaceId::Data].pending |= info.retransmits;
                 }
                 self.streams.retransmit_all_for_0rtt();
+                // Nothing is in flight any more: arm the anti-deadlock PTO
+                self.set_loss_detection_timer(now);
 
                 let token_len = packet.payload.len() - 16;
                 let ConnectionSide::Client { ref mut token, .. } = self.side else {
@@ -2657,6 +2659,11 @@ impl Connection {
                 self.events.push_back(Event::Connected);
                 self.state = State::Established;
                 trace!("established");
+                // The PTO is not armed for the Data space while handshaking, and the last update
+                // of the loss detection timer (e.g. in `discard_space` above) still saw the
+                // handshake state. Re-evaluate it now, or 1-RTT/0-RTT packets already in flight
+                // are never probed if congestion control blocks the next transmission.
+                self.set_loss_detection_timer(now);
                 Ok(())
             }
             Header::Initial(InitialHeader {
